@@ -21,9 +21,14 @@ LR0 = 1.0
 
 def same(a, b):
     """violation-condition helper: a != b for cells/concretes (None-safe)"""
+    # recorded metrics are compared as printed (the history file holds the printed value)
+    a = a.coarse if isinstance(a, TC.FineFloat) else a
+    b = b.coarse if isinstance(b, TC.FineFloat) else b
     a, b = cell(a), cell(b)
     if a is None or b is None:
         return not (a is None and b is None)
+    if isinstance(a, float) and isinstance(b, float) and a != b:   # replays: the history file holds 5 significant digits
+        return float("{:.4e}".format(a)) != float("{:.4e}".format(b))
     return s_not(s_eq_total(a, b)) if (isinstance(a, float) or isinstance(b, float) or is_sym(a) or is_sym(b)) else (a != b)
 
 
